@@ -31,6 +31,7 @@ type LoopContract struct {
 	Splits     []Clause // case analysis: every obligation of the loop body is discharged once per case
 	Invariants []Clause
 	Decreases  *Clause
+	Exhaustive bool // the loop visits every element: its body contains no return, no break out of it and no goto
 }
 
 type Bind struct {
@@ -145,7 +146,7 @@ var (
 )
 
 var clauseKeywords = map[string]bool{"func": true, "spec": true, "lemma": true, "property": true, "ghost": true, "requires": true,
-	"ensures": true, "loop": true, "invariant": true, "decreases": true, "flags": true, "bind": true, "callsite": true, "let": true, "hint": true, "noread": true, "cache": true, "mustread": true, "global": true, "fresh": true, "split": true, "step": true, "atreturn": true, "count": true}
+	"ensures": true, "loop": true, "invariant": true, "decreases": true, "flags": true, "bind": true, "callsite": true, "let": true, "hint": true, "noread": true, "cache": true, "mustread": true, "global": true, "fresh": true, "split": true, "step": true, "atreturn": true, "count": true, "exhaustive": true}
 
 func parseParams(s string) ([]Param, error) {
 	s = strings.TrimSpace(s)
@@ -417,6 +418,11 @@ func (cs *Contracts) ParseFile(path, pkgName string) error {
 				return err
 			}
 			curLoop.Steps = append(curLoop.Steps, c)
+		case "exhaustive":
+			if curLoop == nil {
+				return fail(l, "exhaustive outside loop")
+			}
+			curLoop.Exhaustive = true
 		case "split":
 			if curLoop == nil {
 				return fail(l, "split outside loop")
